@@ -38,106 +38,124 @@ func (c03) Gen(tier string, seed int64, emit func([]Ev)) {
 	}
 	for rep := 0; rep < reps; rep++ {
 		for ln := 1; ln <= 183; ln++ {
-			p := c03Start(r, ln)
-			if ln >= 4 && (ln >= 182 || (ln+rep)%9 == 0) && rep%2 == 1 {
-				// a field filled exactly by its optional fields (no stuffing left), e.g. an empty extension
-				// whose length byte is the last byte of the field
-				p = pktWithAF(r, fullAF(r, ln, (rep/2+ln)%4), ln < 183)
-			}
-			var h []Ev
-			n := 2 + r.Intn(steps)
-			for s := 0; s < n; s++ {
-				e := Ev{}
-				switch x := r.Intn(20); {
-				case x < 8:
-					e["op"] = c03BoolOps[r.Intn(len(c03BoolOps))]
-					e["arg"] = r.Intn(2) == 0
-				case x < 10:
-					e["op"] = []string{"SetPCR", "SetOPCR"}[r.Intn(2)]
-					v := uint64(r.Int63n(int64(pcrLimit)))
-					if r.Intn(4) == 0 {
-						v = []uint64{0, pcrLimit - 1, 299, 300, (1 << 32) * 300}[r.Intn(5)]
-					}
-					e["arg"] = W64(v)
-					if r.Intn(4) == 0 {
-						// re-stamp the clock with the value it currently decodes to (the bytes in the slot may be a
-						// non-canonical encoding of it: reserved bits cleared, extension of 300 or more)
-						e["same"] = true
-					}
-				case x < 11:
-					e["op"] = "SetSpliceCountdown"
-					e["arg"] = []int{0, 1, 127, 128, 255, r.Intn(256)}[r.Intn(6)]
-				case x < 18:
-					e["op"] = []string{"SetTransportPrivateData", "SetAdaptationFieldExtension"}[r.Intn(2)]
-					if r.Intn(2) == 0 { // make the field present first, so that the data call is not just "absent field"
-						pre := Ev{"op": "SetHasTransportPrivateData", "arg": true}
-						if GS(e["op"]) == "SetAdaptationFieldExtension" {
-							pre["op"] = "SetHasAdaptationFieldExtension"
-						}
-						if s == 0 {
-							pre["start"] = B(p[:])
-						}
-						h = append(h, pre)
-						s++
-					}
-					k := 0
-					switch r.Intn(5) {
-					case 0:
-						k = 0
-					case 1:
-						k = r.Intn(4)
-					case 2:
-						k = r.Intn(ln + 2) // around the capacity
-					case 3:
-						k = ln - r.Intn(16) // near the field length
-					default:
-						k = r.Intn(184)
-					}
-					if k < 0 {
-						k = 0
-					}
-					if k > 255 {
-						k = 255
-					}
-					if r.Intn(8) == 0 {
-						// longer than any length byte can express: must be refused like any other misfit,
-						// whatever the length is modulo 256
-						k = []int{256, 257, 260, 256 + r.Intn(184), 511, 512, 513, 512 + r.Intn(184), 768, 1024, 1024 + r.Intn(184), 65536 + r.Intn(184)}[r.Intn(12)]
-					}
-					d := make([]byte, k)
-					r.Read(d)
-					e["arg"] = B(d)
-					if r.Intn(3) == 0 {
-						// length chosen at execution time relative to the room the field has then:
-						// exactly fitting, one short, one too many
-						e["fit"] = []int{-1, 0, 0, 1}[r.Intn(4)]
-						if r.Intn(5) == 0 {
-							e["wrap"] = 1 + r.Intn(3)
-						}
-					}
-				default:
-					e["op"] = "SetAdaptationField"
-					sl := 1 + r.Intn(183)
-					if r.Intn(2) == 0 {
-						sl = ln // same length: always fits
-					}
-					src := c03Start(r, sl)
-					e["arg"] = B(src[:])
-				}
-				if len(h) == 0 {
-					e["start"] = B(p[:])
-				}
-				h = append(h, e)
-			}
-			emit(h)
+			emit(c03History(r, ln, rep, steps))
 		}
+	}
+}
+
+// c03History draws one edit history starting from a field of length ln (r may be driven by a fuzzer's bytes).
+func c03History(r *rand.Rand, ln, rep, steps int) []Ev {
+	p := c03Start(r, ln)
+	if ln >= 4 && (ln >= 182 || (ln+rep)%9 == 0) && rep%2 == 1 {
+		// a field filled exactly by its optional fields (no stuffing left), e.g. an empty extension
+		// whose length byte is the last byte of the field
+		p = pktWithAF(r, fullAF(r, ln, (rep/2+ln)%4), ln < 183)
+	}
+	var h []Ev
+	n := 2 + r.Intn(steps)
+	for s := 0; s < n; s++ {
+		e := Ev{}
+		switch x := r.Intn(20); {
+		case x < 8:
+			e["op"] = c03BoolOps[r.Intn(len(c03BoolOps))]
+			e["arg"] = r.Intn(2) == 0
+		case x < 10:
+			e["op"] = []string{"SetPCR", "SetOPCR"}[r.Intn(2)]
+			v := uint64(r.Int63n(int64(pcrLimit)))
+			if r.Intn(4) == 0 {
+				v = []uint64{0, pcrLimit - 1, 299, 300, (1 << 32) * 300}[r.Intn(5)]
+			}
+			e["arg"] = W64(v)
+			if r.Intn(4) == 0 {
+				// re-stamp the clock with the value it currently decodes to (the bytes in the slot may be a
+				// non-canonical encoding of it: reserved bits cleared, extension of 300 or more)
+				e["same"] = true
+			}
+		case x < 11:
+			e["op"] = "SetSpliceCountdown"
+			e["arg"] = []int{0, 1, 127, 128, 255, r.Intn(256)}[r.Intn(6)]
+		case x < 18:
+			e["op"] = []string{"SetTransportPrivateData", "SetAdaptationFieldExtension"}[r.Intn(2)]
+			if r.Intn(2) == 0 { // make the field present first, so that the data call is not just "absent field"
+				pre := Ev{"op": "SetHasTransportPrivateData", "arg": true}
+				if GS(e["op"]) == "SetAdaptationFieldExtension" {
+					pre["op"] = "SetHasAdaptationFieldExtension"
+				}
+				if s == 0 {
+					pre["start"] = B(p[:])
+				}
+				h = append(h, pre)
+				s++
+			}
+			k := 0
+			switch r.Intn(5) {
+			case 0:
+				k = 0
+			case 1:
+				k = r.Intn(4)
+			case 2:
+				k = r.Intn(ln + 2) // around the capacity
+			case 3:
+				k = ln - r.Intn(16) // near the field length
+			default:
+				k = r.Intn(184)
+			}
+			if k < 0 {
+				k = 0
+			}
+			if k > 255 {
+				k = 255
+			}
+			if r.Intn(8) == 0 {
+				// longer than any length byte can express: must be refused like any other misfit,
+				// whatever the length is modulo 256
+				k = []int{256, 257, 260, 256 + r.Intn(184), 511, 512, 513, 512 + r.Intn(184), 768, 1024, 1024 + r.Intn(184), 65536 + r.Intn(184)}[r.Intn(12)]
+			}
+			d := make([]byte, k)
+			r.Read(d)
+			e["arg"] = B(d)
+			if r.Intn(3) == 0 {
+				// length chosen at execution time relative to the room the field has then:
+				// exactly fitting, one short, one too many
+				e["fit"] = []int{-1, 0, 0, 1}[r.Intn(4)]
+				if r.Intn(5) == 0 {
+					e["wrap"] = 1 + r.Intn(3)
+				}
+			}
+		default:
+			e["op"] = "SetAdaptationField"
+			sl := 1 + r.Intn(183)
+			if r.Intn(2) == 0 {
+				sl = ln // same length: always fits
+			}
+			src := c03Start(r, sl)
+			e["arg"] = B(src[:])
+		}
+		if len(h) == 0 {
+			e["start"] = B(p[:])
+		}
+		h = append(h, e)
+	}
+	return h
+}
+
+// GenRows for fuzzer-driven histories is GenRowsFuzz (GenRows is taken by the model's states).
+func (c03) genFuzzRows(rows []Ev, emit func([]Ev)) {
+	for _, row := range rows {
+		r := rand.New(&byteSrc{b: GB(row["in"])})
+		ln := 1 + (GI(row["opi"])*7+r.Intn(183))%183
+		emit(c03History(r, ln, r.Intn(8), 14))
 	}
 }
 
 // GenRows (B2): rows are the reachable logical states of the model (Gen_C03), each as the serialised field.
 // Every operation of the model is applied to every state - one implementation test per transition of the
 // model's graph; the argument values are the harness's (the trace validation judges whatever was passed).
-func (c03) GenRows(rows []Ev, tier string, seed int64, emit func([]Ev)) {
+func (x c03) GenRows(rows []Ev, tier string, seed int64, emit func([]Ev)) {
+	if len(rows) > 0 && rows[0]["af"] == nil {
+		x.genFuzzRows(rows, emit) // the fuzzer's strings, not the model's states
+		return
+	}
 	r := rand.New(rand.NewSource(seed))
 	for i, row := range rows {
 		if tier != "thorough" && i%32 != int(seed)%32 {
